@@ -532,6 +532,12 @@ fn pre_states() -> Vec<Pre> {
                 MkdirP("/b".into()),
                 Symlink("/a/é/x".into(), "/b".into()),
                 Symlink("/b/y".into(), "/a/é".into()),
+                // two links that point at each other, the first one made while its target was still a directory
+                // (the kind recorded at creation is stale by now)
+                MkdirP("/€".into()),
+                Symlink("/ ".into(), "/€".into()),
+                Remove("/€".into()),
+                Symlink("/€".into(), "/ ".into()),
                 SetCwd("/a".into()),
             ],
         ),
